@@ -121,7 +121,7 @@ def undocumented_kinds_present(model, c):
 
 
 def run(rep, model, tier, seed, broken=()):
-    n = 250 if tier == "quick" else 8000
+    n = 500 if tier == "quick" else 8000
     rng = core.rng_for(seed, "C08")
     gen.set_ascii(True)
     rep.coverage["rule"] = ("nested-AST modules mixing documented and undocumented commands of every kind (classes "
